@@ -722,6 +722,10 @@ type c08Mismatch struct {
 // agree on it: a restart is transparent to everything that happens afterwards.
 var c08LastFinal string
 
+// c08ObserveOnly: run the operations with the observation batteries of a restart-after-every-operation
+// run but WITHOUT the intermediate restarts (only the final one).
+var c08ObserveOnly bool
+
 func c08Run(cf c08Config, ops []int, mask int) (out []c08Mismatch, path []vx.Op, restarts int) {
 	in := c08New(cf)
 	defer in.destroy()
@@ -734,6 +738,13 @@ func c08Run(cf c08Config, ops []int, mask int) (out []c08Mismatch, path []vx.Op,
 	for k, oi := range ops {
 		path = append(path, vx.Op{Name: c08Ops[oi]})
 		in.do(c08Ops[oi])
+		if c08ObserveOnly && k != len(ops)-1 {
+			// the observing twin of a restart-after-every-operation run: the same two observation
+			// batteries a restart takes (reads allocate ids for keys they mention), but no restart
+			in.battery()
+			in.battery()
+			continue
+		}
 		if mask&(1<<uint(k)) != 0 || k == len(ops)-1 {
 			path = append(path, vx.Op{Name: "restart"})
 			restarts++
@@ -855,13 +866,22 @@ func TestVerif_C08(t *testing.T) {
 		// restart transparency: the same operations with a restart after EVERY operation must reach the
 		// same observable state (taken before the final restart) as with no intermediate restart
 		if len(masks) == 2 && finals[masks[0]] != "" && finals[masks[1]] != "" && finals[masks[0]] != finals[masks[1]] {
+			// The two runs also differ in how often the state was OBSERVED, and observing is not free of
+			// side effects (a Row() on a keyed field allocates an id for a key it has not seen). The
+			// verdict therefore compares the restart run with its observing twin: same operations, same
+			// observations at the same points, no intermediate restart.
 			again := true
-			for r := 0; r < 2 && again; r++ { // believed only if it reproduces twice more
-				c08Run(cf, u.ops, masks[0])
+			twin := ""
+			for r := 0; r < 3 && again; r++ { // believed only if it reproduces
+				c08ObserveOnly = true
+				c08Run(cf, u.ops, 0)
+				c08ObserveOnly = false
 				a := c08LastFinal
 				c08Run(cf, u.ops, masks[1])
-				again = a == finals[masks[0]] && c08LastFinal == finals[masks[1]]
+				again = a != "" && a != c08LastFinal && c08LastFinal == finals[masks[1]] && (twin == "" || twin == a)
+				twin = a
 			}
+			finals[masks[0]] = twin
 			if again {
 				what, gl, wl := c08Diff(finals[masks[1]], finals[masks[0]])
 				var path []vx.Op
@@ -869,7 +889,7 @@ func TestVerif_C08(t *testing.T) {
 					path = append(path, vx.Op{Name: c08Ops[oi]})
 				}
 				c.Violate(fmt.Sprintf("restart-not-transparent what=%s config=%s", what, cf.class()), path,
-					fmt.Sprintf("[%s] with a restart after every operation: %s", cf, gl), fmt.Sprintf("with no intermediate restart: %s", wl))
+					fmt.Sprintf("[%s] with a restart after every operation: %s", cf, gl), fmt.Sprintf("with the same observations but no intermediate restart: %s", wl))
 			} else {
 				c.Outcome("flaky restart-not-transparent")
 			}
